@@ -17,6 +17,7 @@ import (
 var (
 	c11KeyID    = 7
 	c11KeyStore [16]byte
+	assignCtr   int
 )
 
 func c11Key() []byte {
@@ -246,7 +247,14 @@ func c11beh(args []string) error {
 		for _, o := range ops {
 			switch o.Op {
 			case "setiv":
-				err := sm4.SetIV(c11IV(o.Iv))
+				// the IV is installed in one of the two ways the package offers: SetIV, or (every other time) an assignment
+				// to the exported variable sm4.IV, the interface that predates SetIV - OpSetIV of Modes.tla is either
+				var err error
+				if assignCtr++; assignCtr%2 == 0 {
+					sm4.IV = append([]byte(nil), c11IV(o.Iv)...)
+				} else {
+					err = sm4.SetIV(c11IV(o.Iv))
+				}
 				ev.emit(map[string]interface{}{"ev": "setiv", "iv": o.Iv, "err": err != nil})
 			case "setiv_bad":
 				bad := make([]byte, o.N)
